@@ -3,7 +3,7 @@
 
 use crate::driver::Cfg;
 use crate::engine::Plan;
-use crate::histx::{enum_commit_histories, sort_by_bound, with_control_everywhere};
+use crate::histx::{add_quiet, enum_commit_histories, sort_by_bound, with_control_everywhere};
 use serde_json::{json, Value};
 
 fn acts(list: &[(&str, Option<usize>)]) -> Vec<Value> {
@@ -146,12 +146,13 @@ fn plan_c01(thorough: bool) -> Plan {
     let mut cfg3 = cfg_small();
     cfg3.cc = 3;
     cases.extend(enum_commit_histories(2, 6, if thorough { 3 } else { 1 }, &a_br, &mk_case("branch", vec!["seed:0,1,299,300,598,599"], &cfg3, "values", false)));
+    add_quiet(&mut cases, if thorough { 1 } else { 4 });
     sort_by_bound(&mut cases);
     let mut p = Plan::new(
         cases,
         "histx: every history of D commits whose batches deviate from the empty batch in at most B key actions (bound = number of deviations), over colliding key universes, from seed states {empty, leaf(6x1300B), branch(600 keys sharing 30 bytes), bulk(1500 keys), ovf(5MiB value), ovf2(two 70000-byte and one 61381-byte value), mixed2(700 clustered + 60 scattered keys), pfx(450 keys sharing 247 bits + 3 far keys: a branch node built with stopped prefix compression; macro action 'delete a run of 100..400 cluster keys' + in-place rewrite of a far key, every seed key audited)}; action alphabet = read, delete, read-then-delete, write of sizes {0,1,1332,1333,5000,61380,61381,70000}, read-then-write; reopen inserted at every position for a sub-family; after every commit Nomt::read and Session::read of every universe key are compared with a BTreeMap model. Non-trivial = at least one write was committed; distinct = distinct (case, final-state digest).",
     );
-    p.budget_s = if thorough { 1500 } else { 40 };
+    p.budget_s = if thorough { 1500 } else { 45 };
     p.assumptions = vec![
         "values are compared through Nomt::read and Session::read only (C01 says nothing about roots)".into(),
         "commit_concurrency 1 and 3; other options at small fixed values (see C13 for the option space)".into(),
@@ -197,13 +198,14 @@ fn plan_c02(thorough: bool) -> Plan {
         cases.extend(enum_commit_histories(2, 14, 2, &a, &mk_case("empty", vec!["U2"], &c, "root", true)));
     }
     cases.extend(crate::plans2::tombstone_family("root", thorough));
+    add_quiet(&mut cases, if thorough { 1 } else { 2 });
     cases.extend(crate::schedx::worker_schedule_cases(thorough));
     sort_by_bound(&mut cases);
     let mut p = Plan::new(
         cases,
         "histx: every history of D commits with at most B key actions {insert, delete, overwrite} over (i) a 14-key family diverging at bits {0,1,5,6,7,11,12,13,17,18,127,254,255} and (ii) clusters of 18..22 keys below one depth-2 and one depth-3 merkle page (page-elision threshold from both sides), for 1..64 commit workers, and (iii) the tombstone family (16/32-bucket tables × 16 bitbox seeds, 10 pages, every page / adjacent pair of pages removed, cold reopen, re-insert, reopen), and (iv) every schedule with ≤2 (thorough: all) preemptions of the three merkle update workers of one commit (worker start, publishing of child-page roots, hand-back of the write pass, root-page phase) under the controlled scheduler; FinishedSession::root, Nomt::root after each commit and after a final reopen are compared with an independent from-scratch recursive trie over the model's key-value set. Non-trivial = at least one write committed. Also ALL schedules (a few hundred per batch) of the three beatree leaf-stage workers of one commit whose ranges are three consecutive leaves that all fall below the merge threshold (three batches: two of three values deleted / values shrunk and last leaf deleted / middle leaf deleted), i.e. of the extend-range protocol between neighbouring workers (poll left neighbour, send request, wait for response, wait for left neighbour to conclude, join in completion order): after every schedule the values, root and proofs equal the model and the directory decodes (independent decoder) to exactly the model with every page accounted for.",
     );
-    p.budget_s = if thorough { 1500 } else { 40 };
+    p.budget_s = if thorough { 1500 } else { 45 };
     p.assumptions = vec!["collision resistance of the hasher (equal roots ⇔ equal tries)".into()];
     p
 }
@@ -259,6 +261,7 @@ fn plan_c16(thorough: bool) -> Plan {
             cases.push(json!({"mode": "c03", "hist": h, "target": t, "bound": b, "cap": 4, "nested": false, "decode": true}));
         }
     }
+    add_quiet(&mut cases, if thorough { 1 } else { 3 });
     sort_by_bound(&mut cases);
     let mut p = Plan::new(
         cases,
@@ -278,6 +281,7 @@ fn plan_c19(thorough: bool) -> Plan {
             cases.push(json!({"mode": "c03", "hist": h, "target": t, "bound": b, "cap": 4, "nested": false, "decode": true, "occupancy": true}));
         }
     }
+    add_quiet(&mut cases, if thorough { 1 } else { 3 });
     sort_by_bound(&mut cases);
     let mut p = Plan::new(
         cases,
